@@ -907,7 +907,13 @@ func (f *Frame) cutHeader(n *Node, l *Loop) {
 	// 3. havoc
 	for _, phi := range l.phis {
 		v := f.havocVal(phi.Type(), f.prefix+"h_"+sanitize(l.key)+"_"+phi.Name(), ns.reach)
-		if ns.env[phi].Shared {
+		resliced := false
+		for _, e := range phi.Edges {
+			if sl, ok := e.(*ssa.Slice); ok && sl.Low != nil {
+				resliced = true // the loop re-slices this variable (v = v[k:]): it is treated as shared from the start
+			}
+		}
+		if ns.env[phi].Shared || resliced {
 			v.Shared = true
 			if l.sharedPhis == nil {
 				l.sharedPhis = map[*ssa.Phi]bool{}
@@ -957,6 +963,38 @@ func (f *Frame) cutHeader(n *Node, l *Loop) {
 	}
 	l.headReach = ns.reach
 	l.headItem = len(ex.vc.items)
+	// range loops over slices / arrays / strings: the compiler-generated index i (phi "rangeindex", -1 on entry,
+	// incremented in the header and tested against a length computed before the loop) satisfies -1 <= i < length at the
+	// head by construction; stated here so that contracts need not (and can, for unnamed range expressions, not) say it
+	for _, phi := range l.phis {
+		if phi.Comment != "rangeindex" || phi.Block() != l.header {
+			continue
+		}
+		for _, ins := range l.header.Instrs {
+			add, ok := ins.(*ssa.BinOp)
+			if !ok || add.Op != token.ADD || add.X != phi {
+				continue
+			}
+			if one, isC := add.Y.(*ssa.Const); !isC || one.Value == nil || one.Int64() != 1 {
+				continue
+			}
+			for _, ins2 := range l.header.Instrs {
+				cmp, ok := ins2.(*ssa.BinOp)
+				if !ok || cmp.Op != token.LSS || cmp.X != add {
+					continue
+				}
+				if lv, have := ns.env[cmp.Y]; have || isConstValue(cmp.Y) {
+					if !have {
+						lv = f.operand(ns.env, cmp.Y)
+					}
+					iv := ns.env[phi].T
+					if lv.T.Sort.Kind == KInt && iv.Sort.Kind == KInt {
+						ex.vc.Assume(Implies(ns.reach, And(leT(IntLit64(-1, SInt), iv), Or(ltT(iv, lv.T), And(Eq(iv, IntLit64(-1, SInt)), leT(lv.T, IntLit64(0, SInt)))))), "range index within the ranged length (by construction of range loops)")
+					}
+				}
+			}
+		}
+	}
 	// 4. assume invariants
 	if l.spec != nil {
 		sc := f.scope(ns)
@@ -1329,4 +1367,9 @@ func funcKey(fn *ssa.Function) string {
 		}
 	}
 	return pkg + "." + name
+}
+
+func isConstValue(v ssa.Value) bool {
+	_, ok := v.(*ssa.Const)
+	return ok
 }
